@@ -500,6 +500,7 @@ type rgen struct {
 	noHost bool // keep the host-panic statement out (a panic outside every try ends the run at once)
 	nfns   int  // named functions that `cf` may call (0: no such statement)
 	vias   bool // calls are rendered as functions, methods, static methods, closures or constructors at random
+	bare   bool // parts of try statements are rendered without their marker at random (Catch.Q, Stmt.Q)
 }
 
 func (x *rgen) via(body []Stmt) string {
@@ -580,10 +581,19 @@ func (x *rgen) block(depth int, inLoop, inCatch, guarded bool) []Stmt {
 			nc := x.r.Intn(4)
 			for c := 0; c < nc; c++ {
 				s.Catches = append(s.Catches, Catch{Types: x.catchTypes(), Body: x.block(depth-1, inLoop, true, guarded)})
+				if x.bare && x.r.Chance(40) {
+					s.Catches[c].Q = true
+				}
 			}
 			if nc == 0 || x.r.Chance(60) {
 				s.HasFin = true
 				s.Fin = x.block(depth-1, inLoop, inCatch, guarded)
+				if x.bare && x.r.Chance(30) {
+					s.Q += "f"
+				}
+			}
+			if x.bare && x.r.Chance(30) {
+				s.Q += "b"
 			}
 			res = append(res, s)
 		default:
@@ -600,6 +610,7 @@ func randCase(r *vh.Rand) Case {
 	// calls are functions, or (every second program) functions, methods, static methods, closures and constructors
 	x := &rgen{r: r, g: randGraph(r), budget: 14 + r.Intn(30)}
 	x.vias = r.Chance(50)
+	x.bare = r.Chance(35) // every third program or so: catch bodies / try blocks / finally blocks without their marker
 	depth := 1 + r.Intn(4)
 	return Case{G: x.g, Prog: x.block(depth, false, false, false), Tag: "random"}
 }
